@@ -3,6 +3,7 @@ package main
 import (
 	"fmt"
 	"go/types"
+	"sort"
 )
 
 // ---------------------------------------------------------------------------
@@ -365,9 +366,14 @@ func (vc *VC) strLit(s string) Term {
 	t := vc.decls.Const(name, SStr)
 	vc.decls.Fun("gstr.len", []Sort{SStr}, SInt)
 	vc.assumeRaw(Eq(App(SInt, "gstr.len", t), IntLit(int64(len(s)))))
-	for o, ot := range vc.strlits {
+	others := make([]string, 0, len(vc.strlits))
+	for o := range vc.strlits {
+		others = append(others, o)
+	}
+	sort.Strings(others)
+	for _, o := range others {
 		if o != s {
-			vc.assumeRaw(Ne(t, ot))
+			vc.assumeRaw(Ne(t, vc.strlits[o]))
 		}
 	}
 	vc.strlits[s] = t
